@@ -1,6 +1,6 @@
 SPECIFICATION Spec
 CONSTANTS
-  MaxCalls = 6
+  MaxCalls = 5
   Focus = {}
   MaxLive = 2
   Payloads = {"empty", "one", "html", "large", "partial"}
